@@ -236,7 +236,7 @@ func init() {
 	fw.Register(&fw.Prop{
 		ID:    "C06",
 		Level: "fault_enumeration",
-		Rule: "every {list,dict,set} x iterating construct (for, 7 comprehension shapes, *args, 12 unpacking forms, Go push iterators, and every built-in/method/operator DISCOVERED to call Iterate on an argument by probing each universe built-in, each method of each built-in type, json/math/time members and struct with a harness Iterable in argument positions 0..2) " +
+		Rule: "every {list,dict,set} x iterating construct (for, 7 comprehension shapes, *args, 12 unpacking forms, Go push iterators, and every built-in/method/operator DISCOVERED to call Iterate on an argument by probing each universe built-in, each method of each built-in type, json/math/time members and struct with a harness Iterable in argument positions 0..2; and every such callable that iterates the ELEMENTS of its argument, found with the probe inside a wrapper, run with the collection in that place for each length 1..3) " +
 			"x every DISCOVERED mutator (methods, x[i]=v, augmented assignments, reflected Go API methods that change a mutable copy) attempted from the loop body / key= callback / an element's Truth, Hash or comparison " +
 			"x exit {exhaustion, break, continue, return, fail, error in nested call, host panic, element error} at iteration first/second/last x nesting {alone, inside a loop over the same collection, in a called function, loop in caller + construct in callee}; " +
 			"each such program is executed unlimited and then once per k in [1..S] with SetMaxExecutionSteps(k). Oracle on every execution: attempts while an iterator is live fail and leave the content unchanged; afterwards iterator count 0, Go no-op mutation succeeds, CallStackDepth 0, value re-iterable, second execution on the same thread reproduces the normal outcome, the mutator now succeeds. " +
